@@ -22,6 +22,7 @@ Mirrors, function by function:
                                                       x/metadata/types/address.go:952-1028
 * bank `msgServer.Send`, `SendCoins`, `MintCoins`, `BurnCoins` (forked SDK x/bank/keeper)
 * marker `SendRestrictionFn` (withdraw / deposit parts) x/marker/keeper/send_restrictions.go:18-92
+* marker `msgServer.Withdraw` / `Keeper.WithdrawCoins`  x/marker/keeper/marker.go:169-209
 * authz `GenericAuthorization` / `CountAuthorization.Accept` (forked SDK x/authz)
 
 Conventions: addresses and scope ids are symbolic strings.  The scope token of scope `i`
@@ -493,6 +494,21 @@ def bankSend (s : State) (frm to : Addr) (ids : List ScopeId) : Except Err State
   else if s.blocked.contains to then .error .blocked
   else sendCoins s [] frm to ids
 
+/-- marker `msgServer.Withdraw` → `Keeper.WithdrawCoins` (x/marker/keeper/marker.go:169) for scope
+tokens sitting in a marker account: the caller needs withdraw on that marker and, when the
+recipient is a restricted marker, deposit on that one (`validateSendToMarker`, marker.go:878);
+the send itself runs with the marker bypass.  (An empty coin list is not generated.) -/
+def markerWithdraw (s : State) (marker admin to : Addr) (ids : List ScopeId) : Except Err State :=
+  if admin = "" || to = "" || ids.isEmpty || !nodupB ids then .error .invalid
+  else match findMarker s marker with
+    | none => .error .notfound
+    | some m =>
+      if !m.has admin .withdraw then .error .withdraw
+      else if !depositOk s [admin] marker to then .error .deposit
+      else if s.blocked.contains to then .error .blocked
+      else if !hasFunds s.ledger marker ids then .error .funds
+      else .ok { s with ledger := s.ledger.move marker to (ones ids) }
+
 /-! ## Environment operations (not part of the property's messages) -/
 
 /-- authz `SaveGrant`: replaces a grant with the same key -/
@@ -517,6 +533,7 @@ inductive Op where
   | updvo (ids : List ScopeId) (vo : Addr) (signers : List Addr)
   | migrate (existing proposed : Addr) (signers : List Addr)
   | send (frm to : Addr) (ids : List ScopeId)
+  | mwithdraw (marker admin to : Addr) (ids : List ScopeId)
   | grant (granter grantee : Addr) (mt : MsgType) (count : Nat)
   | revoke (granter grantee : Addr) (mt : MsgType)
   | access (marker addr : Addr) (perms : List Access)
@@ -528,6 +545,7 @@ def exec (s : State) : Op → Except Err State
   | .updvo ids vo signers => updateValueOwners s ids vo signers
   | .migrate ex pr signers => migrateValueOwner s ex pr signers
   | .send frm to ids => bankSend s frm to ids
+  | .mwithdraw marker admin to ids => markerWithdraw s marker admin to ids
   | .grant granter grantee mt count => .ok (saveGrant s ⟨granter, grantee, mt, count⟩)
   | .revoke granter grantee mt => deleteGrant s granter grantee mt
   | .access marker addr perms => setAccess s marker addr perms
